@@ -9,6 +9,10 @@
 // Read, empty Read, CloseWrite, Close, Write+CloseWrite). Every handler closure speaks
 // first (its registration id, the protocol its stream reports, a serial number of the
 // invocation), then echoes what it received (the nonce, or "nothing, then EOF").
+// The request list of an open is a slice object of the caller: private to the call, or a
+// list the application keeps and passes to several opens of the history (listPool); the
+// oracle judges every open against the list the caller intended and demands that the
+// caller's object is left as it was.
 //
 // bothways_test.go generates the same rounds with either host as the opener and without any
 // harness-side peerstore write (knowledge produced by the library alone).
@@ -21,6 +25,7 @@ import (
 	"errors"
 	"fmt"
 	"io"
+	"slices"
 	"sort"
 	"strconv"
 	"strings"
@@ -56,6 +61,13 @@ func TestMain(m *testing.M) {
 			"or a match-function registration (not an exact ID) answered, or handlers were changed after the first batch of opens. "+
 			"Distinct = distinct (pair kind, limited, handler history, knowledge states, request lists, first-operation kinds). "+
 			"Labels first-op:<kind>:<eager|lazy-accepted|lazy-refused> count the cases containing such an open. "+
+			"The request list is the caller's own slice OBJECT, and which object an open passes is generated: a private slice (2/6), a list the application keeps "+
+			"(request + 0..2 further entries behind it, 2/6) or a prefix (the same one in 2/3 of the draws, else any of 1..3 entries) of a list kept since an earlier open of the case (2/6), passed with the "+
+			"rest of the array as spare capacity or clipped ([:n:n], 1/4); so one list object is passed to several NewStream calls of a history: concurrently in one batch, in later "+
+			"rounds after handler / knowledge changes, and (both-directions tests) by either host, i.e. towards different peers. The enumerated tests pass one kept list per request to all opens of a case. "+
+			"Oracle: every open is judged against the list the caller intended (a reference copy the library never sees), and the backing array of every passed slice must hold after the call, "+
+			"and at quiescence after the batch, what it held before (NewStream takes the list by value; a list the library rewrote makes the later opens of the history request something else than the caller listed). "+
+			"Labels request-list:... count the cases containing an open of that class (reused = the same object was passed by another open of the case). "+
 			"TestBothDirections / TestBothDirectionsSmall generate the same rounds with opens in BOTH directions over the one connection: both hosts carry independently drawn "+
 			"(asymmetric) handler sets, each round names which host opens (2..5 rounds, opener switches with probability 2/3), handler changes happen on either host (none in half "+
 			"of the rounds; each change makes a BasicHost push its protocol list; in 1/4 of the rounds with changes the opens start while the pushes are in flight), request lists mix "+
@@ -143,8 +155,17 @@ type lop struct {
 }
 
 type openSpec struct {
-	Req   []protocol.ID `json:"req"`
-	Use   string        `json:"use"` // the dialer's first operation(s) on the fresh stream, see useKinds
+	// Req is the ordered list the caller INTENDS to request. It is the oracle's reference and is
+	// never handed to the library: the slice object that is passed to NewStream is built (or
+	// looked up) at run time, see List.
+	Req []protocol.ID `json:"req"`
+	Use string        `json:"use"` // the dialer's first operation(s) on the fresh stream, see useKinds
+	// List says which slice OBJECT the caller passes. 0: a private slice built for this one call
+	// (len == cap). k > 0: the caller's kept list k (scenario.Lists[k-1]), an object that lives for
+	// the whole case and is passed, as kept[:len(Req)], to every open naming it; Req is that prefix.
+	List int `json:"list,omitempty"`
+	// Clip: pass kept[:n:n] (the callee sees no spare capacity) instead of kept[:n].
+	Clip  bool `json:"clip,omitempty"`
 	nonce uint64
 }
 
@@ -202,7 +223,12 @@ type scenario struct {
 	Init     []lop   `json:"init"`
 	InitD    []lop   `json:"init_dialer,omitempty"` // handlers of the connection's dialer (it is a listener for streams too)
 	Rounds   []round `json:"rounds"`
-	Key      uint64  `json:"-"`
+	// Lists: the request lists the application keeps and reuses (the usual package level
+	// `var protocols = []protocol.ID{...}`): full content of each backing array. An open naming
+	// list k requests a prefix of it; the entries behind that prefix are spare capacity as far
+	// as that call is concerned, and part of the request of an open that passes a longer prefix.
+	Lists [][]protocol.ID `json:"lists,omitempty"`
+	Key   uint64          `json:"-"`
 }
 
 // ---------------------------------------------------------------------------
@@ -376,6 +402,12 @@ func drawKnowledge(rt *rapid.T, m *lmodel, mode string) []protocol.ID {
 	}
 }
 
+// private returns a copy of l with len == cap. Every list of the harness that reaches the
+// library through a variadic parameter (which shares the backing array) is passed as such a
+// copy: the scenario, the universe and the oracle's reference lists are never exposed to writes
+// by the code under test. (The slices handed to NewStream are the generated objects, see openSpec.List.)
+func private(l []protocol.ID) []protocol.ID { return append(make([]protocol.ID, 0, len(l)), l...) }
+
 func contains(l []protocol.ID, id protocol.ID) bool {
 	for _, x := range l {
 		if x == id {
@@ -419,6 +451,58 @@ func drawRequest(rt *rapid.T, m *lmodel, know []protocol.ID) []protocol.ID {
 	return req
 }
 
+// nextUnused walks the request universe from id to the first ID that is not in used.
+func nextUnused(used []protocol.ID, id protocol.ID) protocol.ID {
+	for contains(used, id) {
+		for i, x := range reqUniverse {
+			if x == id {
+				id = reqUniverse[(i+1)%len(reqUniverse)]
+				break
+			}
+		}
+	}
+	return id
+}
+
+// listPool is the generator's view of the request lists the application keeps (scenario.Lists).
+// The statement quantifies over every ordered request list and over histories of opens; the
+// list is the caller's own object, and NewStream receives it by value (`pids ...protocol.ID`
+// shares the caller's backing array). A caller that keeps one list and passes it to several
+// opens - concurrently, after handler or knowledge changes, from either host - requests in
+// every one of them what it put into the list, whatever earlier calls did with it.
+type listPool struct {
+	lists    [][]protocol.ID
+	firstLen []int // length of the prefix the creating open passed
+}
+
+// draw decides which slice object an open passes and returns the intended request: a prefix of
+// a list kept since an earlier open (2/6 once one exists), a new kept list whose first entries
+// are a request constructed by fresh() for the current state, followed by 0..2 further
+// entries (2/6), or a private slice holding fresh() (2/6).
+func (p *listPool) draw(rt *rapid.T, fresh func() []protocol.ID) (req []protocol.ID, list int, clip bool) {
+	src := rapid.IntRange(0, 5).Draw(rt, "listsrc")
+	if src <= 1 && len(p.lists) > 0 {
+		k := rapid.IntRange(0, len(p.lists)-1).Draw(rt, "list-idx")
+		st := p.lists[k]
+		n := p.firstLen[k]
+		if rapid.IntRange(0, 2).Draw(rt, "list-otherlen") == 0 {
+			n = rapid.IntRange(1, min(len(st), 3)).Draw(rt, "list-len")
+		}
+		return append([]protocol.ID{}, st[:n]...), k + 1, rapid.IntRange(0, 3).Draw(rt, "list-clip") == 0
+	}
+	req = fresh()
+	if src > 3 {
+		return req, 0, false
+	}
+	st := append([]protocol.ID{}, req...)
+	for i, n := 0, rapid.IntRange(0, 2).Draw(rt, "list-spare"); i < n; i++ {
+		st = append(st, nextUnused(st, rapid.SampledFrom(reqUniverse).Draw(rt, "list-spare-id")))
+	}
+	p.lists = append(p.lists, st)
+	p.firstLen = append(p.firstLen, len(req))
+	return req, len(p.lists), rapid.IntRange(0, 3).Draw(rt, "list-clip") == 0
+}
+
 func mix(x uint64) uint64 { // splitmix64 finaliser: a bijection, so nonces of one case are distinct
 	x += 0x9e3779b97f4a7c15
 	x = (x ^ (x >> 30)) * 0xbf58476d1ce4e5b9
@@ -446,6 +530,7 @@ func drawScenario(rt *rapid.T) *scenario {
 		sc.Init = append(sc.Init, op)
 	}
 	nonce := 0
+	pool := &listPool{}
 	for i, n := 0, rapid.IntRange(1, 4).Draw(rt, "nrounds"); i < n; i++ {
 		var r round
 		r.KnowMode = rapid.SampledFrom(knowModes).Draw(rt, "knowmode")
@@ -472,11 +557,12 @@ func drawScenario(rt *rapid.T) *scenario {
 		r.Know = drawKnowledge(rt, m, r.KnowMode)
 		for j, k := 0, rapid.IntRange(1, 4).Draw(rt, "nopens"); j < k; j++ {
 			nonce++
-			req := drawRequest(rt, m, r.Know)
-			r.Opens = append(r.Opens, openSpec{Req: req, Use: rapid.SampledFrom(useWeighted).Draw(rt, "use"), nonce: mix(sc.Key + uint64(nonce))})
+			req, list, clip := pool.draw(rt, func() []protocol.ID { return drawRequest(rt, m, r.Know) })
+			r.Opens = append(r.Opens, openSpec{Req: req, List: list, Clip: clip, Use: rapid.SampledFrom(useWeighted).Draw(rt, "use"), nonce: mix(sc.Key + uint64(nonce))})
 		}
 		sc.Rounds = append(sc.Rounds, r)
 	}
+	sc.Lists = pool.lists
 	return sc
 }
 
@@ -690,6 +776,18 @@ type openResult struct {
 	echo      *echo
 	protoPost protocol.ID
 	claimed   bool // an application handler invocation was attributed to this open
+	// the caller's slice object: what NewStream was given (arg, a prefix of backing) and a copy
+	// of the whole backing array taken when NewStream returned
+	arg, backing []protocol.ID
+	listAfter    []protocol.ID
+}
+
+// listUse records one open that passed a kept request list (for the reuse labels).
+type listUse struct {
+	round, n, opener int
+	lazy             bool
+	outcome          string // bound protocol, or "error"
+	nonFirst         bool   // bound to an entry other than the first one of the request
 }
 
 // useStream performs the generated usage of a fresh stream (see useKinds). A failure of
@@ -852,6 +950,14 @@ func runScenario(f failer, sc *scenario) *outcome {
 	}
 	sides[0].base, sides[1].base = viewStats(f, D), viewStats(f, L)
 
+	// The application's kept request lists: built once per case, handed to every open that names
+	// them. sc.Lists / openSpec.Req (never given to the library) stay the reference.
+	kept := make([][]protocol.ID, len(sc.Lists))
+	for k, l := range sc.Lists {
+		kept[k] = append(make([]protocol.ID, 0, len(l)), l...)
+	}
+	listUses := make([][]listUse, len(sc.Lists))
+
 	// harnessWrote: the harness has written protocol knowledge into a peerstore in this case.
 	// As long as it has not, whatever an opener believes about the other host was produced by
 	// the library itself (identify, identify push, earlier opens in either direction).
@@ -889,15 +995,15 @@ func runScenario(f failer, sc *scenario) *outcome {
 		case "keep":
 		case "random":
 			harnessWrote = true
-			if err := O.n.Peerstore().SetProtocols(R.n.ID(), r.Know...); err != nil {
+			if err := O.n.Peerstore().SetProtocols(R.n.ID(), private(r.Know)...); err != nil {
 				f.Fatalf("harness: SetProtocols: %v", err)
 			}
 		default:
 			harnessWrote = true
-			if err := O.n.Peerstore().RemoveProtocols(R.n.ID(), reqUniverse...); err != nil {
+			if err := O.n.Peerstore().RemoveProtocols(R.n.ID(), private(reqUniverse)...); err != nil {
 				f.Fatalf("harness: RemoveProtocols: %v", err)
 			}
-			if err := O.n.Peerstore().AddProtocols(R.n.ID(), r.Know...); err != nil {
+			if err := O.n.Peerstore().AddProtocols(R.n.ID(), private(r.Know)...); err != nil {
 				f.Fatalf("harness: AddProtocols: %v", err)
 			}
 		}
@@ -906,7 +1012,7 @@ func runScenario(f failer, sc *scenario) *outcome {
 		} else {
 			lab("knowledge-source:library-only")
 		}
-		known, err := O.n.Peerstore().SupportsProtocols(R.n.ID(), reqUniverse...)
+		known, err := O.n.Peerstore().SupportsProtocols(R.n.ID(), private(reqUniverse)...)
 		if err != nil {
 			f.Fatalf("harness: SupportsProtocols: %v", err)
 		}
@@ -938,12 +1044,27 @@ func runScenario(f failer, sc *scenario) *outcome {
 		var wg sync.WaitGroup
 		for i := range r.Opens {
 			res[i] = &openResult{}
+			// the slice object this open passes
+			if o := r.Opens[i]; o.List == 0 {
+				res[i].backing = append(make([]protocol.ID, 0, len(o.Req)), o.Req...)
+				res[i].arg = res[i].backing
+			} else {
+				if o.List > len(kept) || len(o.Req) > len(sc.Lists[o.List-1]) || !slices.Equal(sc.Lists[o.List-1][:len(o.Req)], o.Req) {
+					f.Fatalf("harness: round %d open %d: request %v is not a prefix of kept list %d of %v", ri, i, o.Req, o.List, sc.Lists)
+				}
+				res[i].backing = kept[o.List-1]
+				res[i].arg = res[i].backing[:len(o.Req)]
+				if o.Clip {
+					res[i].arg = res[i].backing[:len(o.Req):len(o.Req)]
+				}
+			}
 			wg.Add(1)
 			go func(o openSpec, out *openResult) {
 				defer wg.Done()
 				ctx, cancel := context.WithTimeout(baseCtx, 30*time.Second)
 				defer cancel()
-				s, err := O.n.NewStream(ctx, R.n.ID(), o.Req...)
+				s, err := O.n.NewStream(ctx, R.n.ID(), out.arg...)
+				out.listAfter = append([]protocol.ID(nil), out.backing...)
 				if err != nil {
 					out.err = err
 					return
@@ -968,6 +1089,26 @@ func runScenario(f failer, sc *scenario) *outcome {
 		// requested protocol is common to both sides, the open has to succeed on it.
 		libraryMadeItUp := func(P protocol.ID, shared bool) bool {
 			return !harnessWrote && shared && !m.ever[P] && !m.named[P]
+		}
+		// The request list is the caller's: NewStream receives it by value, and the next open of the
+		// history that passes the same object requests what the caller put there. Every backing
+		// array must hold after the call (and at quiescence after the batch) what it held before.
+		for i, o := range r.Opens {
+			want, what := o.Req, "a private slice"
+			if o.List > 0 {
+				want, what = sc.Lists[o.List-1], fmt.Sprintf("the caller's kept list %d (%v, passed as [:%d] with capacity %d)", o.List, sc.Lists[o.List-1], len(o.Req), cap(res[i].arg))
+			}
+			if !slices.Equal(res[i].listAfter, want) {
+				f.Fatalf("%s: the request list the caller passed to NewStream, %s, held %v before the batch and holds %v when the call has returned: "+
+					"the library wrote through the caller's slice, so opens that pass this list from now on do not request what the caller listed; opens %s",
+					ctxt(i), what, want, res[i].listAfter, describeBatch(r.Opens, res))
+			}
+		}
+		for k := range kept {
+			if !slices.Equal(kept[k], sc.Lists[k]) {
+				f.Fatalf("round %d: the caller's kept request list %d held %v and holds %v after the batch (at quiescence): the library wrote through the caller's slice; opens %s",
+					ri, k+1, sc.Lists[k], kept[k], describeBatch(r.Opens, res))
+			}
 		}
 		byInv := map[int]int{}                                       // handler invocation serial -> open it answered
 		openD, openL := map[protocol.ID]int{}, map[protocol.ID]int{} // streams open on the opener / held by the responder's handlers
@@ -1034,6 +1175,48 @@ func runScenario(f failer, sc *scenario) *outcome {
 						}
 					}
 				}
+			}
+
+			// which slice object carried the request, and what the history did with it before
+			if cap(out.arg) > len(out.arg) {
+				lab("request-list:spare-capacity-behind-the-request")
+			}
+			if o.List == 0 {
+				lab("request-list:private")
+			} else {
+				lab("request-list:kept-by-caller")
+				now := listUse{round: ri, n: len(o.Req), opener: oi, lazy: out.lazy, outcome: "error"}
+				if out.err == nil {
+					now.outcome, now.nonFirst = string(out.proto), out.proto != o.Req[0]
+				}
+				for j, o2 := range r.Opens {
+					if j != i && o2.List == o.List {
+						lab("request-list:reused")
+						lab("request-list:reused:concurrently-in-one-batch")
+					}
+				}
+				for _, u := range listUses[o.List-1] {
+					if u.round == ri {
+						continue
+					}
+					lab("request-list:reused")
+					lab("request-list:reused:in-a-later-round")
+					if u.lazy {
+						lab("request-list:reused:after-an-optimistic-open")
+					}
+					if u.nonFirst {
+						lab("request-list:reused:after-an-open-bound-to-a-non-first-entry")
+					}
+					if u.n != now.n {
+						lab("request-list:reused:as-another-prefix")
+					} else if u.outcome != now.outcome {
+						lab("request-list:reused:same-request-other-outcome")
+					}
+					if u.opener != oi {
+						lab("request-list:reused:by-the-other-host")
+					}
+				}
+				listUses[o.List-1] = append(listUses[o.List-1], now)
 			}
 
 			if out.err != nil {
@@ -1375,7 +1558,11 @@ func TestSmallExhaustive(t *testing.T) {
 						if !hx.Mine(idx) {
 							continue
 						}
-						sc := &scenario{Dialer: pr[0], Listener: pr[1], Limited: idx%5 == 0, Init: cfg, Key: uint64(idx)}
+						// the caller keeps ONE list object for the whole case (request + one further entry it
+						// never requests here) and passes it to every open: 2 or 14 opens, before and after the
+						// removal of the handlers, knowledge re-established or evolving in between
+						sc := &scenario{Dialer: pr[0], Listener: pr[1], Limited: idx%5 == 0, Init: cfg, Key: uint64(idx),
+							Lists: [][]protocol.ID{append(append([]protocol.ID{}, req...), "/c/1.0.0")}}
 						var removes []lop
 						seen := map[protocol.ID]bool{}
 						for _, op := range cfg {
@@ -1386,7 +1573,8 @@ func TestSmallExhaustive(t *testing.T) {
 						}
 						for phase := 0; phase < 2; phase++ {
 							for k, use := range uses {
-								r := round{KnowMode: kn.mode, Know: kn.ids, Opens: []openSpec{{Req: req, Use: use, nonce: mix(uint64(idx)*64 + uint64(phase*len(uses)+k))}}}
+								r := round{KnowMode: kn.mode, Know: kn.ids, Opens: []openSpec{{Req: append([]protocol.ID{}, req...), List: 1, Clip: idx%3 == 0, Use: use,
+									nonce: mix(uint64(idx)*64 + uint64(phase*len(uses)+k))}}}
 								if phase == 1 && k == 0 {
 									r.Ops = removes
 								}
